@@ -1,8 +1,9 @@
 CONSTANTS
     PartsId = 1
     MaxCalls = 4
-    SrcLens = {0, 1, 9, 10, 11, 14}
+    SrcLens = {0, 1, 9, 10, 11, 13}
     Mutant = 3
+    Side = "r"
     Emit = FALSE
 SPECIFICATION Spec
 INVARIANT TypeOK
